@@ -448,3 +448,501 @@ package sarama
 
 //@ func releaseLengthField(m) trusted
 //@   modifies nothing
+
+// ---------------------------------------------------------------------------------------------
+// prep_encoder.go / real_encoder.go (C09: the sizing pass and the writing pass agree; what is written
+// decodes back). Size of each primitive is a spec function stated here, not read off the code:
+//   int8/bool 1, int16 2, int32/array length 4, int64 8, varint sz_varint(x), uvarint sz_uvarint(x),
+//   compact length sz_uvarint(n+1), bytes 4+len (nil: 4), varint bytes sz_varint(len)+len (nil: 1),
+//   raw bytes len, string 2+len (nil: 2), compact string sz_uvarint(len+1)+len (nil: 1),
+//   int32/int64 arrays 4+4n / 4+8n, compact int32 array sz_uvarint(n+1)+4n (nil, nullable: 1).
+
+//@ func (pe *prepEncoder) putInt8(in) props C09
+//@   requires pe.length >= 0 && pe.length <= 4611686018427387904
+//@   ensures[size] pe.length == old(pe.length) + 1
+//@   modifies pe.length
+//@ func (pe *prepEncoder) putInt16(in) props C09
+//@   requires pe.length >= 0 && pe.length <= 4611686018427387904
+//@   ensures[size] pe.length == old(pe.length) + 2
+//@   modifies pe.length
+//@ func (pe *prepEncoder) putInt32(in) props C09
+//@   requires pe.length >= 0 && pe.length <= 4611686018427387904
+//@   ensures[size] pe.length == old(pe.length) + 4
+//@   modifies pe.length
+//@ func (pe *prepEncoder) putInt64(in) props C09
+//@   requires pe.length >= 0 && pe.length <= 4611686018427387904
+//@   ensures[size] pe.length == old(pe.length) + 8
+//@   modifies pe.length
+//@ func (pe *prepEncoder) putBool(in) props C09
+//@   requires pe.length >= 0 && pe.length <= 4611686018427387904
+//@   ensures[size] pe.length == old(pe.length) + 1
+//@   modifies pe.length
+//@ func (pe *prepEncoder) putVarint(in) props C09
+//@   requires pe.length >= 0 && pe.length <= 4611686018427387904
+//@   ensures[size] pe.length == old(pe.length) + sz_varint(in)
+//@   modifies pe.length
+//@ func (pe *prepEncoder) putUVarint(in) props C09
+//@   requires pe.length >= 0 && pe.length <= 4611686018427387904
+//@   ensures[size] pe.length == old(pe.length) + sz_uvarint(in)
+//@   modifies pe.length
+//@ func (pe *prepEncoder) putArrayLength(in) props C09
+//@   returns err
+//@   requires pe.length >= 0 && pe.length <= 4611686018427387904
+//@   ensures[size] err == nil ==> pe.length == old(pe.length) + 4
+//@   ensures[err] (err == nil) == (in <= 2147483647)
+//@   ensures[unchanged] err != nil ==> pe.length == old(pe.length)
+//@   modifies pe.length
+//@ func (pe *prepEncoder) putCompactArrayLength(in) props C09
+//@   requires pe.length >= 0 && pe.length <= 2305843009213693952 && in >= -1 && in <= 4611686018427387904
+//@   ensures[size] pe.length == old(pe.length) + sz_uvarint(in + 1)
+//@   modifies pe.length
+//@ func (pe *prepEncoder) putRawBytes(in) props C09
+//@   returns err
+//@   requires pe.length >= 0 && pe.length <= 4611686018427387904
+//@   ensures[size] err == nil ==> pe.length == old(pe.length) + len(in)
+//@   ensures[err] (err == nil) == (len(in) <= 2147483647)
+//@   modifies pe.length
+//@ func (pe *prepEncoder) putBytes(in) props C09
+//@   returns err
+//@   requires pe.length >= 0 && pe.length <= 2305843009213693952
+//@   ensures[size] err == nil ==> pe.length == old(pe.length) + 4 + ite(isnil(in), 0, len(in))
+//@   ensures[err] (err == nil) == (isnil(in) || len(in) <= 2147483647)
+//@   modifies pe.length
+//@ func (pe *prepEncoder) putVarintBytes(in) props C09
+//@   returns err
+//@   requires pe.length >= 0 && pe.length <= 2305843009213693952
+//@   ensures[size] err == nil ==> pe.length == old(pe.length) + ite(isnil(in), 1, sz_varint(len(in)) + len(in))
+//@   modifies pe.length
+//@ func (pe *prepEncoder) putCompactBytes(in) props C09
+//@   returns err
+//@   requires pe.length >= 0 && pe.length <= 2305843009213693952
+//@   ensures[size] err == nil ==> pe.length == old(pe.length) + sz_uvarint(len(in) + 1) + len(in)
+//@   modifies pe.length
+//@ func (pe *prepEncoder) putString(in) props C09
+//@   returns err
+//@   requires pe.length >= 0 && pe.length <= 2305843009213693952
+//@   ensures[size] err == nil ==> pe.length == old(pe.length) + 2 + len(in)
+//@   ensures[err] (err == nil) == (len(in) <= 32767)
+//@   modifies pe.length
+//@ func (pe *prepEncoder) putNullableString(in) props C09
+//@   returns err
+//@   requires pe.length >= 0 && pe.length <= 2305843009213693952
+//@   ensures[size] err == nil ==> pe.length == old(pe.length) + 2 + ite(in == nil, 0, len(*in))
+//@   modifies pe.length
+//@ func (pe *prepEncoder) putCompactString(in) props C09
+//@   returns err
+//@   requires pe.length >= 0 && pe.length <= 2305843009213693952
+//@   ensures[size] err == nil ==> pe.length == old(pe.length) + sz_uvarint(len(in) + 1) + len(in)
+//@   modifies pe.length
+//@ func (pe *prepEncoder) putNullableCompactString(in) props C09
+//@   returns err
+//@   requires pe.length >= 0 && pe.length <= 2305843009213693952
+//@   ensures[size] err == nil ==> pe.length == old(pe.length) + ite(in == nil, 1, sz_uvarint(len(*in) + 1) + len(*in))
+//@   modifies pe.length
+//@ func (pe *prepEncoder) putInt32Array(in) props C09
+//@   returns err
+//@   requires pe.length >= 0 && pe.length <= 2305843009213693952
+//@   ensures[size] err == nil ==> pe.length == old(pe.length) + 4 + 4*len(in)
+//@   modifies pe.length
+//@ func (pe *prepEncoder) putInt64Array(in) props C09
+//@   returns err
+//@   requires pe.length >= 0 && pe.length <= 2305843009213693952
+//@   ensures[size] err == nil ==> pe.length == old(pe.length) + 4 + 8*len(in)
+//@   modifies pe.length
+//@ func (pe *prepEncoder) putCompactInt32Array(in) props C09
+//@   returns err
+//@   requires pe.length >= 0 && pe.length <= 2305843009213693952
+//@   ensures[size] err == nil ==> pe.length == old(pe.length) + sz_uvarint(len(in) + 1) + 4*len(in)
+//@   ensures[err] (err == nil) == !isnil(in)
+//@   modifies pe.length
+//@ func (pe *prepEncoder) putNullableCompactInt32Array(in) props C09
+//@   returns err
+//@   requires pe.length >= 0 && pe.length <= 2305843009213693952
+//@   ensures[size] err == nil ==> pe.length == old(pe.length) + ite(isnil(in), 1, sz_uvarint(len(in) + 1) + 4*len(in))
+//@   modifies pe.length
+//@ func (pe *prepEncoder) putEmptyTaggedFieldArray() props C09
+//@   requires pe.length >= 0 && pe.length <= 2305843009213693952
+//@   ensures[size] pe.length == old(pe.length) + 1
+//@   modifies pe.length
+
+// realEncoder: each put needs exactly the room the sizing pass reserved, advances by exactly that much,
+// writes nothing outside [old off, new off) and writes bytes that the decoder's value clauses read back.
+
+//@ func (re *realEncoder) valid() pure
+//@   define 0 <= re.off && re.off <= len(re.raw)
+
+//@ func (re *realEncoder) putInt8(in) props C09
+//@   requires re.valid() && re.off + 1 <= len(re.raw)
+//@   ensures[adv] re.off == old(re.off) + 1 && len(re.raw) == old(len(re.raw))
+//@   ensures[value] wrap8(arr(re.raw)[off(re.raw) + old(re.off)]) == in
+//@   ensures[frame] off(re.raw) == old(off(re.raw)) && forall k :: (k < off(re.raw) + old(re.off) || k >= off(re.raw) + re.off) ==> arr(re.raw)[k] == old(arr(re.raw)[k])
+//@   modifies re.off, re.raw
+//@ func (re *realEncoder) putInt16(in) props C09
+//@   requires re.valid() && re.off + 2 <= len(re.raw)
+//@   ensures[adv] re.off == old(re.off) + 2 && len(re.raw) == old(len(re.raw))
+//@   ensures[value] wrap16(be16(arr(re.raw), off(re.raw) + old(re.off))) == in
+//@   ensures[frame] off(re.raw) == old(off(re.raw)) && forall k :: (k < off(re.raw) + old(re.off) || k >= off(re.raw) + re.off) ==> arr(re.raw)[k] == old(arr(re.raw)[k])
+//@   modifies re.off, re.raw
+//@ func (re *realEncoder) putInt32(in) props C09
+//@   requires re.valid() && re.off + 4 <= len(re.raw)
+//@   ensures[adv] re.off == old(re.off) + 4 && len(re.raw) == old(len(re.raw))
+//@   ensures[value] wrap32(be32(arr(re.raw), off(re.raw) + old(re.off))) == in
+//@   ensures[frame] off(re.raw) == old(off(re.raw)) && forall k :: (k < off(re.raw) + old(re.off) || k >= off(re.raw) + re.off) ==> arr(re.raw)[k] == old(arr(re.raw)[k])
+//@   modifies re.off, re.raw
+//@ func (re *realEncoder) putInt64(in) props C09
+//@   requires re.valid() && re.off + 8 <= len(re.raw)
+//@   ensures[adv] re.off == old(re.off) + 8 && len(re.raw) == old(len(re.raw))
+//@   ensures[value] wrap64(be64(arr(re.raw), off(re.raw) + old(re.off))) == in
+//@   ensures[frame] off(re.raw) == old(off(re.raw)) && forall k :: (k < off(re.raw) + old(re.off) || k >= off(re.raw) + re.off) ==> arr(re.raw)[k] == old(arr(re.raw)[k])
+//@   modifies re.off, re.raw
+//@ func (re *realEncoder) putVarint(in) props C09
+//@   requires re.valid() && re.off + sz_varint(in) <= len(re.raw)
+//@   ensures[adv] re.off == old(re.off) + sz_varint(in) && len(re.raw) == old(len(re.raw))
+//@   ensures[value] unzigzag(uv_val(arr(re.raw), off(re.raw) + old(re.off))) == in && uv_len(arr(re.raw), off(re.raw) + old(re.off)) == sz_varint(in)
+//@   ensures[frame] off(re.raw) == old(off(re.raw)) && forall k :: (k < off(re.raw) + old(re.off) || k >= off(re.raw) + re.off) ==> arr(re.raw)[k] == old(arr(re.raw)[k])
+//@   modifies re.off, re.raw
+//@ func (re *realEncoder) putUVarint(in) props C09
+//@   requires re.valid() && re.off + sz_uvarint(in) <= len(re.raw)
+//@   ensures[adv] re.off == old(re.off) + sz_uvarint(in) && len(re.raw) == old(len(re.raw))
+//@   ensures[value] uv_val(arr(re.raw), off(re.raw) + old(re.off)) == in && uv_len(arr(re.raw), off(re.raw) + old(re.off)) == sz_uvarint(in)
+//@   ensures[frame] off(re.raw) == old(off(re.raw)) && forall k :: (k < off(re.raw) + old(re.off) || k >= off(re.raw) + re.off) ==> arr(re.raw)[k] == old(arr(re.raw)[k])
+//@   modifies re.off, re.raw
+//@ func (re *realEncoder) putArrayLength(in) props C09
+//@   returns err
+//@   requires re.valid() && re.off + 4 <= len(re.raw) && -1 <= in && in <= 2147483647
+//@   ensures[adv] err == nil && re.off == old(re.off) + 4 && len(re.raw) == old(len(re.raw))
+//@   ensures[value] wrap32(be32(arr(re.raw), off(re.raw) + old(re.off))) == in
+//@   modifies re.off, re.raw
+//@ func (re *realEncoder) putCompactArrayLength(in) props C09
+//@   requires re.valid() && -1 <= in && in <= 4611686018427387904 && re.off + sz_uvarint(in + 1) <= len(re.raw)
+//@   ensures[adv] re.off == old(re.off) + sz_uvarint(in + 1) && len(re.raw) == old(len(re.raw))
+//@   ensures[value] uv_val(arr(re.raw), off(re.raw) + old(re.off)) == in + 1
+//@   modifies re.off, re.raw
+//@ func (re *realEncoder) putBool(in) props C09
+//@   requires re.valid() && re.off + 1 <= len(re.raw)
+//@   ensures[adv] re.off == old(re.off) + 1 && len(re.raw) == old(len(re.raw))
+//@   ensures[value] (arr(re.raw)[off(re.raw) + old(re.off)] == 1) == in && arr(re.raw)[off(re.raw) + old(re.off)] <= 1
+//@   modifies re.off, re.raw
+//@ func (re *realEncoder) putRawBytes(in) props C09
+//@   returns err
+//@   requires re.valid() && re.off + len(in) <= len(re.raw)
+//@   ensures[adv] err == nil && re.off == old(re.off) + len(in) && len(re.raw) == old(len(re.raw))
+//@   ensures[value] forall k :: 0 <= k && k < len(in) ==> arr(re.raw)[off(re.raw) + old(re.off) + k] == in[k]
+//@   ensures[frame] off(re.raw) == old(off(re.raw)) && forall k :: (k < off(re.raw) + old(re.off) || k >= off(re.raw) + re.off) ==> arr(re.raw)[k] == old(arr(re.raw)[k])
+//@   modifies re.off, re.raw
+//@ func (re *realEncoder) putBytes(in) props C09
+//@   returns err
+//@   requires re.valid() && len(in) <= 2147483647 && re.off + 4 + ite(isnil(in), 0, len(in)) <= len(re.raw)
+//@   ensures[adv] err == nil && re.off == old(re.off) + 4 + ite(isnil(in), 0, len(in)) && len(re.raw) == old(len(re.raw))
+//@   ensures[value] wrap32(be32(arr(re.raw), off(re.raw) + old(re.off))) == ite(isnil(in), -1, len(in))
+//@   modifies re.off, re.raw
+//@ func (re *realEncoder) putVarintBytes(in) props C09
+//@   returns err
+//@   requires re.valid() && re.off + ite(isnil(in), 1, sz_varint(len(in)) + len(in)) <= len(re.raw)
+//@   ensures[adv] err == nil && re.off == old(re.off) + ite(isnil(in), 1, sz_varint(len(in)) + len(in)) && len(re.raw) == old(len(re.raw))
+//@   ensures[value] unzigzag(uv_val(arr(re.raw), off(re.raw) + old(re.off))) == ite(isnil(in), -1, len(in))
+//@   modifies re.off, re.raw
+//@ func (re *realEncoder) putCompactBytes(in) props C09
+//@   returns err
+//@   requires re.valid() && re.off + sz_uvarint(len(in) + 1) + len(in) <= len(re.raw)
+//@   ensures[adv] err == nil && re.off == old(re.off) + sz_uvarint(len(in) + 1) + len(in) && len(re.raw) == old(len(re.raw))
+//@   modifies re.off, re.raw
+//@ func (re *realEncoder) putString(in) props C09
+//@   returns err
+//@   requires re.valid() && len(in) <= 32767 && re.off + 2 + len(in) <= len(re.raw)
+//@   ensures[adv] err == nil && re.off == old(re.off) + 2 + len(in) && len(re.raw) == old(len(re.raw))
+//@   ensures[value] wrap16(be16(arr(re.raw), off(re.raw) + old(re.off))) == len(in)
+//@   modifies re.off, re.raw
+//@ func (re *realEncoder) putNullableString(in) props C09
+//@   returns err
+//@   requires re.valid() && (in != nil ==> len(*in) <= 32767) && re.off + 2 + ite(in == nil, 0, len(*in)) <= len(re.raw)
+//@   ensures[adv] err == nil && re.off == old(re.off) + 2 + ite(in == nil, 0, len(*in)) && len(re.raw) == old(len(re.raw))
+//@   ensures[value] wrap16(be16(arr(re.raw), off(re.raw) + old(re.off))) == ite(in == nil, -1, len(*in))
+//@   modifies re.off, re.raw
+//@ func (re *realEncoder) putCompactString(in) props C09
+//@   returns err
+//@   requires re.valid() && re.off + sz_uvarint(len(in) + 1) + len(in) <= len(re.raw)
+//@   ensures[adv] err == nil && re.off == old(re.off) + sz_uvarint(len(in) + 1) + len(in) && len(re.raw) == old(len(re.raw))
+//@   modifies re.off, re.raw
+//@ func (re *realEncoder) putNullableCompactString(in) props C09
+//@   returns err
+//@   requires re.valid() && re.off + ite(in == nil, 1, sz_uvarint(len(*in) + 1) + len(*in)) <= len(re.raw)
+//@   ensures[adv] err == nil && re.off == old(re.off) + ite(in == nil, 1, sz_uvarint(len(*in) + 1) + len(*in)) && len(re.raw) == old(len(re.raw))
+//@   modifies re.off, re.raw
+//@ func (re *realEncoder) putInt32Array(in) props C09
+//@   returns err
+//@   requires re.valid() && len(in) <= 2147483647 && re.off + 4 + 4*len(in) <= len(re.raw)
+//@   ensures[adv] err == nil && re.off == old(re.off) + 4 + 4*len(in) && len(re.raw) == old(len(re.raw))
+//@   loop 0: invariant re.valid() && len(re.raw) == old(len(re.raw)) && re.off == old(re.off) + 4 + 4*$i
+//@   modifies re.off, re.raw
+//@ func (re *realEncoder) putInt64Array(in) props C09
+//@   returns err
+//@   requires re.valid() && len(in) <= 2147483647 && re.off + 4 + 8*len(in) <= len(re.raw)
+//@   ensures[adv] err == nil && re.off == old(re.off) + 4 + 8*len(in) && len(re.raw) == old(len(re.raw))
+//@   loop 0: invariant re.valid() && len(re.raw) == old(len(re.raw)) && re.off == old(re.off) + 4 + 8*$i
+//@   modifies re.off, re.raw
+//@ func (re *realEncoder) putCompactInt32Array(in) props C09
+//@   returns err
+//@   requires re.valid() && !isnil(in) && re.off + sz_uvarint(len(in) + 1) + 4*len(in) <= len(re.raw)
+//@   ensures[adv] err == nil && re.off == old(re.off) + sz_uvarint(len(in) + 1) + 4*len(in) && len(re.raw) == old(len(re.raw))
+//@   loop 0: invariant re.valid() && len(re.raw) == old(len(re.raw)) && re.off == old(re.off) + sz_uvarint(len(in) + 1) + 4*$i
+//@   modifies re.off, re.raw
+//@ func (re *realEncoder) putNullableCompactInt32Array(in) props C09
+//@   returns err
+//@   requires re.valid() && re.off + ite(isnil(in), 1, sz_uvarint(len(in) + 1) + 4*len(in)) <= len(re.raw)
+//@   ensures[adv] err == nil && re.off == old(re.off) + ite(isnil(in), 1, sz_uvarint(len(in) + 1) + 4*len(in)) && len(re.raw) == old(len(re.raw))
+//@   loop 0: invariant re.valid() && len(re.raw) == old(len(re.raw)) && re.off == old(re.off) + sz_uvarint(len(in) + 1) + 4*$i
+//@   modifies re.off, re.raw
+//@ func (re *realEncoder) putEmptyTaggedFieldArray() props C09
+//@   requires re.valid() && re.off + 1 <= len(re.raw)
+//@   ensures[adv] re.off == old(re.off) + 1 && len(re.raw) == old(len(re.raw))
+//@   ensures[value] arr(re.raw)[off(re.raw) + old(re.off)] == 0
+//@   modifies re.off, re.raw
+
+// round-trip lemmas over the spec functions shared by encoder and decoder contracts (C09)
+//@ lemma[zigzag_inverse] props C09 : forall x int64 :: unzigzag(zigzag(x)) == x && 0 <= zigzag(x) && zigzag(x) <= 18446744073709551615
+//@ lemma[rt_uvarint] props C09 : forall s []byte, L int, v uint64 :: uv_val(arr(s), off(s)) == v && uv_len(arr(s), off(s)) == sz_uvarint(v) && arr(s)[off(s) + 9] <= ite(sz_uvarint(v) == 10, 1, 255) && L >= sz_uvarint(v) ==> uv_n(arr(s), off(s), L) == sz_uvarint(v) && uv_value(arr(s), off(s), L) == v
+//@ lemma[rt_varint] props C09 : forall s []byte, L int, v int64 :: unzigzag(uv_val(arr(s), off(s))) == v && uv_val(arr(s), off(s)) == zigzag(v) && uv_len(arr(s), off(s)) == sz_varint(v) && arr(s)[off(s) + 9] <= ite(sz_varint(v) == 10, 1, 255) && L >= sz_varint(v) ==> uv_n(arr(s), off(s), L) == sz_varint(v) && unzigzag(uv_value(arr(s), off(s), L)) == v
+//@ lemma[short_uvarint] props C09 C10 : forall s []byte, L int :: 0 <= L && L < uv_len(arr(s), off(s)) && uv_len(arr(s), off(s)) <= 10 ==> uv_n(arr(s), off(s), L) == 0
+//@ lemma[sz_uvarint_range] props C09 : forall v uint64 :: 1 <= sz_uvarint(v) && sz_uvarint(v) <= 10
+
+// ---------------------------------------------------------------------------------------------
+// length_field.go, crc32_field.go: push fields (C09 prescribes the covered bytes, C10 the checks)
+
+//@ func (l *lengthField) run(curOffset, buf) props C09
+//@   returns err
+//@   requires 0 <= l.startOffset && l.startOffset + 4 <= curOffset && curOffset <= len(buf)
+//@   ensures[ok] err == nil
+//@   nosafety
+
+//@ func (l *lengthField) check(curOffset, buf) props C09 C10
+//@   returns err
+//@   ensures[mismatch] (err == nil) == (wrap32(curOffset - l.startOffset - 4) == l.length)
+//@   modifies nothing
+
+//@ func (l *lengthField) decode(pd) props C10
+//@   returns err
+//@   requires pd.remaining() >= 0
+//@   ensures[state] 0 <= pd.remaining() && pd.remaining() <= old(pd.remaining())
+//@   ensures[bound] err == nil ==> l.length <= pd.remaining()
+//@   modifies pd.*, l.length
+
+//@ func (l *lengthField) reserveLength() props C09
+//@   returns n
+//@   ensures[four] n == 4
+//@   modifies nothing
+
+//@ func (l *varintLengthField) reserveLength() props C09
+//@   returns n
+//@   ensures[size] n == sz_varint(l.length)
+//@   modifies nothing
+
+//@ func (l *varintLengthField) adjustLength(currOffset) props C09
+//@   returns d
+//@   requires 0 <= l.startOffset && l.startOffset <= currOffset && currOffset <= 4611686018427387904
+//@   ensures[length] l.length == currOffset - l.startOffset - sz_varint(old(l.length))
+//@   ensures[delta] d == sz_varint(l.length) - sz_varint(old(l.length))
+//@   modifies l.length
+
+//@ func (l *varintLengthField) check(curOffset, buf) props C09 C10
+//@   returns err
+//@   requires 0 <= l.startOffset && l.startOffset <= curOffset && curOffset <= 4611686018427387904
+//@   ensures[mismatch] (err == nil) == (curOffset - l.startOffset - sz_varint(l.length) == l.length)
+//@   modifies nothing
+
+//@ func (c *crc32Field) reserveLength() props C09
+//@   returns n
+//@   ensures[four] n == 4
+//@   modifies nothing
+
+//@ func (c *crc32Field) crc(curOffset, buf) props C09 C10
+//@   returns sum, err
+//@   requires 0 <= c.startOffset && c.startOffset + 4 <= curOffset && curOffset <= len(buf)
+//@   ensures[poly] (err == nil) == (c.polynomial == crcIEEE || c.polynomial == crcCastagnoli)
+//@   modifies nothing
+
+//@ func (c *crc32Field) check(curOffset, buf) props C09 C10
+//@   returns err
+//@   requires 0 <= c.startOffset && c.startOffset + 4 <= curOffset && curOffset <= len(buf)
+//@   modifies nothing
+
+// ---------------------------------------------------------------------------------------------
+// encoder_decoder.go
+
+// Every encode implementation writes only through the packetEncoder it is given; no put* of the
+// real encoder changes len(raw) (proved above, clause adv). Stated once for the interface, trusted
+// for the ~150 bodies (assumption A-encode-bodies).
+//@ func (e encoder) encode(pe) trusted
+//@   returns err
+//@   ensures[rawlen] len(pe.(*realEncoder).raw) == old(len(pe.(*realEncoder).raw))
+//@   modifies pe.*
+
+//@ func encode(e, metricRegistry) props C09 C16
+//@   returns b, err
+//@   ensures[wire_bound] err == nil && e != nil ==> len(b) <= MaxRequestSize
+//@   ensures[nil] e == nil ==> isnil(b) && err == nil
+
+//@ func decode(buf, in) props C10
+//@   returns err
+//@   nosafety
+
+//@ func versionedDecode(buf, in, version) props C10
+//@   returns err
+//@   nosafety
+
+// ---------------------------------------------------------------------------------------------
+// produce_set.go (C16 limits, C04 index alignment, C05 sequence bookkeeping)
+
+//@ ghost func verAtLeast(KafkaVersion, KafkaVersion) bool
+//@ ghost func bsz(*ProducerMessage, int) int
+
+// IsAtLeast reads only its two (value) arguments: a deterministic function of them.
+//@ func (v KafkaVersion) IsAtLeast(other) trusted
+//@   returns r
+//@   ensures r == verAtLeast(v, other)
+//@   modifies nothing
+
+// byteSize reads only the message: within a state in which the message is not written, two calls agree.
+//@ func (m *ProducerMessage) byteSize(version) trusted
+//@   returns r
+//@   ensures r == bsz(m, version)
+//@   modifies nothing
+
+//@ func (ps *produceSet) empty() pure
+
+//@ func (ps *produceSet) wouldOverflow(msg) props C16
+//@   returns r
+//@   requires 0 <= ps.bufferBytes && ps.bufferBytes <= 2305843009213693952
+//@   requires 0 <= bsz(msg, 1) && bsz(msg, 1) <= 2305843009213693952 && 0 <= bsz(msg, 2) && bsz(msg, 2) <= 2305843009213693952
+//@   requires MaxRequestSize >= 10240
+//@   requires forall t string, p int32 :: ps.msgs[t] != nil && ps.msgs[t][p] != nil ==> 0 <= ps.msgs[t][p].bufferBytes && ps.msgs[t][p].bufferBytes <= 2305843009213693952
+//@   ensures[admit] r == !(ps.bufferBytes + bsz(msg, ite(verAtLeast(ps.parent.conf.Version, V0_11_0_0), 2, 1)) < MaxRequestSize - 10240
+//@     |   && !(ps.msgs[msg.Topic] != nil && ps.msgs[msg.Topic][msg.Partition] != nil && ps.msgs[msg.Topic][msg.Partition].bufferBytes + bsz(msg, ite(verAtLeast(ps.parent.conf.Version, V0_11_0_0), 2, 1)) >= ps.parent.conf.Producer.MaxMessageBytes)
+//@     |   && !(ps.parent.conf.Producer.Flush.MaxMessages > 0 && ps.bufferCount >= ps.parent.conf.Producer.Flush.MaxMessages))
+//@   modifies nothing
+
+//@ func (ps *produceSet) readyToFlush() props C16
+//@   returns r
+//@   ensures[trigger] r == (ps.bufferCount != 0 && ((ps.parent.conf.Producer.Flush.Frequency == 0 && ps.parent.conf.Producer.Flush.Bytes == 0 && ps.parent.conf.Producer.Flush.Messages == 0)
+//@     |   || (ps.parent.conf.Producer.Flush.Messages > 0 && ps.bufferCount >= ps.parent.conf.Producer.Flush.Messages)
+//@     |   || (ps.parent.conf.Producer.Flush.Bytes > 0 && ps.bufferBytes >= ps.parent.conf.Producer.Flush.Bytes)))
+//@   modifies nothing
+
+//@ func (ps *produceSet) dropPartition(topic, partition) props C16 C01
+//@   returns r
+//@   requires forall t string, p int32 :: ps.msgs[t] != nil && ps.msgs[t][p] != nil ==> 0 <= ps.msgs[t][p].bufferBytes && ps.msgs[t][p].bufferBytes <= 4611686018427387904
+//@   requires -4611686018427387904 <= ps.bufferBytes && ps.bufferBytes <= 4611686018427387904 && -4611686018427387904 <= ps.bufferCount && ps.bufferCount <= 4611686018427387904
+//@   ensures[absent] old(ps.msgs[topic] == nil || ps.msgs[topic][partition] == nil) ==> isnil(r) && ps.bufferCount == old(ps.bufferCount) && ps.bufferBytes == old(ps.bufferBytes)
+//@   ensures[count] old(ps.msgs[topic] != nil && ps.msgs[topic][partition] != nil) ==> ps.bufferCount == old(ps.bufferCount) - len(r) && ps.bufferBytes == old(ps.bufferBytes) - old(ps.msgs[topic][partition].bufferBytes)
+//@   ensures[msgs] old(ps.msgs[topic] != nil && ps.msgs[topic][partition] != nil) ==> r == old(ps.msgs[topic][partition].msgs)
+//@   ensures[removed] ps.msgs[topic] != nil ==> ps.msgs[topic][partition] == nil
+//@   modifies ps.bufferBytes, ps.bufferCount, maps
+
+//@ func (ps *produceSet) add(msg) props C16 C04 C05
+//@   returns err
+//@   requires ps.msgs != nil && 0 <= ps.bufferBytes && ps.bufferBytes <= 2305843009213693952 && 0 <= ps.bufferCount && ps.bufferCount <= 2305843009213693952
+//@   requires forall t string, p int32 :: ps.msgs[t] != nil && ps.msgs[t][p] != nil ==> 0 <= ps.msgs[t][p].bufferBytes && ps.msgs[t][p].bufferBytes <= 2305843009213693952
+//@   requires forall t string, p int32 :: ps.msgs[t] != nil && ps.msgs[t][p] != nil && verAtLeast(ps.parent.conf.Version, V0_11_0_0) ==> ps.msgs[t][p].recordsToSend.RecordBatch != nil
+//@   requires forall t string, p int32 :: ps.msgs[t] != nil && ps.msgs[t][p] != nil && !verAtLeast(ps.parent.conf.Version, V0_11_0_0) ==> ps.msgs[t][p].recordsToSend.MsgSet != nil
+//@   requires len(msg.Headers) <= 1048576 && forall i :: 0 <= i && i < len(msg.Headers) ==> len(msg.Headers[i].Key) <= 2147483648 && len(msg.Headers[i].Value) <= 2147483648
+//@   loop 0: invariant size >= 36 + len(key) + len(val) && size <= 2305843009213693952 + $i * 4294967396 && len(ps.msgs[msg.Topic][msg.Partition].msgs) == old(ite(ps.msgs[msg.Topic] != nil && ps.msgs[msg.Topic][msg.Partition] != nil, len(ps.msgs[msg.Topic][msg.Partition].msgs), 0)) + 1
+//@   requires forall t string, p int32 :: ps.msgs[t] != nil && ps.msgs[t][p] != nil && verAtLeast(ps.parent.conf.Version, V0_11_0_0) ==> len(ps.msgs[t][p].recordsToSend.RecordBatch.Records) == len(ps.msgs[t][p].msgs)
+//@   requires forall t string, p int32 :: ps.msgs[t] != nil && ps.msgs[t][p] != nil && !verAtLeast(ps.parent.conf.Version, V0_11_0_0) ==> len(ps.msgs[t][p].recordsToSend.MsgSet.Messages) == len(ps.msgs[t][p].msgs)
+//@   ensures[aligned @C04] err == nil ==> ite(verAtLeast(ps.parent.conf.Version, V0_11_0_0), len(ps.msgs[msg.Topic][msg.Partition].recordsToSend.RecordBatch.Records), len(ps.msgs[msg.Topic][msg.Partition].recordsToSend.MsgSet.Messages)) == len(ps.msgs[msg.Topic][msg.Partition].msgs)
+//@   ensures[count] err == nil ==> ps.bufferCount == old(ps.bufferCount) + 1
+//@   ensures[bytes] err == nil ==> ps.msgs[msg.Topic] != nil && ps.msgs[msg.Topic][msg.Partition] != nil
+//@     |   && ps.bufferBytes - old(ps.bufferBytes) == ps.msgs[msg.Topic][msg.Partition].bufferBytes - old(ite(ps.msgs[msg.Topic] != nil && ps.msgs[msg.Topic][msg.Partition] != nil, ps.msgs[msg.Topic][msg.Partition].bufferBytes, 0))
+//@     |   && ps.bufferBytes > old(ps.bufferBytes)
+//@   ensures[appended] err == nil ==> len(ps.msgs[msg.Topic][msg.Partition].msgs) == old(ite(ps.msgs[msg.Topic] != nil && ps.msgs[msg.Topic][msg.Partition] != nil, len(ps.msgs[msg.Topic][msg.Partition].msgs), 0)) + 1
+//@     |   && ps.msgs[msg.Topic][msg.Partition].msgs[len(ps.msgs[msg.Topic][msg.Partition].msgs) - 1] == msg
+//@   ensures[first_sequence] err == nil && verAtLeast(ps.parent.conf.Version, V0_11_0_0) && old(ps.msgs[msg.Topic] == nil || ps.msgs[msg.Topic][msg.Partition] == nil) ==>
+//@     |   ps.msgs[msg.Topic][msg.Partition].recordsToSend.RecordBatch.FirstSequence == ite(ps.parent.conf.Producer.Idempotent, msg.sequenceNumber, 0)
+//@     |   && ps.msgs[msg.Topic][msg.Partition].recordsToSend.RecordBatch.ProducerID == ps.producerID
+//@     |   && ps.msgs[msg.Topic][msg.Partition].recordsToSend.RecordBatch.ProducerEpoch == ps.producerEpoch
+//@   ensures[in_sequence] err == nil && verAtLeast(ps.parent.conf.Version, V0_11_0_0) && ps.parent.conf.Producer.Idempotent ==> msg.sequenceNumber >= ps.msgs[msg.Topic][msg.Partition].recordsToSend.RecordBatch.FirstSequence
+//@   ensures[unchanged_on_error] err != nil ==> ps.bufferCount == old(ps.bufferCount) && ps.bufferBytes == old(ps.bufferBytes)
+
+// ---------------------------------------------------------------------------------------------
+// offset_manager.go (C06). Every operation on a partitionOffsetManager is one critical section of
+// pom.lock; acq(e) is e at the acquisition, the post-state is the release. A contract proved for the
+// critical section therefore holds for every interleaving of Mark/Reset/commit/Close (A-conc: mutex
+// atomicity).
+
+//@ guarded partitionOffsetManager.lock: offset, metadata, dirty, done
+
+//@ func (pom *partitionOffsetManager) MarkOffset(offset, metadata) props C06
+//@   ensures[raise] offset > acq(pom.offset) ==> pom.offset == offset && pom.metadata == metadata && pom.dirty
+//@   ensures[keep] offset <= acq(pom.offset) ==> pom.offset == acq(pom.offset) && pom.metadata == acq(pom.metadata) && pom.dirty == acq(pom.dirty)
+//@   ensures[monotone] pom.offset >= acq(pom.offset)
+//@   ensures[done] pom.done == acq(pom.done)
+//@   modifies pom.offset, pom.metadata, pom.dirty, pom.done
+
+//@ func (pom *partitionOffsetManager) ResetOffset(offset, metadata) props C06
+//@   ensures[lower] offset <= acq(pom.offset) ==> pom.offset == offset && pom.metadata == metadata && pom.dirty
+//@   ensures[keep] offset > acq(pom.offset) ==> pom.offset == acq(pom.offset) && pom.metadata == acq(pom.metadata) && pom.dirty == acq(pom.dirty)
+//@   ensures[never_raises] pom.offset <= acq(pom.offset)
+//@   ensures[done] pom.done == acq(pom.done)
+//@   modifies pom.offset, pom.metadata, pom.dirty, pom.done
+
+//@ func (pom *partitionOffsetManager) updateCommitted(offset, metadata) props C06
+//@   ensures[position] pom.offset == acq(pom.offset) && pom.metadata == acq(pom.metadata) && pom.done == acq(pom.done)
+//@   ensures[dirty_rule] pom.dirty == (acq(pom.dirty) && !(acq(pom.offset) == offset && acq(pom.metadata) == metadata))
+//@   modifies pom.offset, pom.metadata, pom.dirty, pom.done
+
+//@ func (pom *partitionOffsetManager) NextOffset() props C06
+//@   returns o, m
+//@   ensures[stored] acq(pom.offset) >= 0 ==> o == acq(pom.offset) && m == acq(pom.metadata)
+//@   ensures[initial] acq(pom.offset) < 0 ==> o == pom.parent.conf.Consumer.Offsets.Initial && len(m) == 0
+//@   ensures[unchanged] pom.offset == acq(pom.offset) && pom.metadata == acq(pom.metadata) && pom.dirty == acq(pom.dirty) && pom.done == acq(pom.done)
+//@   modifies pom.offset, pom.metadata, pom.dirty, pom.done
+
+//@ func (pom *partitionOffsetManager) AsyncClose() props C06
+//@   ensures[done] pom.done && pom.offset == acq(pom.offset) && pom.metadata == acq(pom.metadata) && pom.dirty == acq(pom.dirty)
+//@   modifies pom.offset, pom.metadata, pom.dirty, pom.done
+
+//@ func (r *OffsetCommitRequest) AddBlock(topic, partitionID, offset, timestamp, metadata) props C06
+//@   ensures[block] r.blocks != nil && r.blocks[topic] != nil && r.blocks[topic][partitionID] != nil
+//@     |   && r.blocks[topic][partitionID].offset == offset && r.blocks[topic][partitionID].metadata == metadata && r.blocks[topic][partitionID].timestamp == timestamp
+//@   modifies r.blocks, maps
+
+//@ func (om *offsetManager) constructRequest() props C06
+//@   returns r
+//@   ensures[header] r != nil ==> r.Version == ite(om.conf.Consumer.Offsets.Retention == 0, 1, 2) && r.ConsumerGroup == om.group && r.ConsumerID == om.memberID && r.ConsumerGroupGeneration == om.generation
+//@   callsite AddBlock: requires[only_dirty] pom.dirty
+//@   callsite AddBlock: requires[pair] $offset == pom.offset && $metadata == pom.metadata && $topic == pom.topic && $partitionID == pom.partition
+//@   callsite AddBlock: requires[under_lock] lockheld(pom.lock)
+
+//@ func (om *offsetManager) handleResponse(broker, req, resp) props C06
+//@   callsite updateCommitted: requires[acked] resp.Errors[pom.topic] != nil && haskey(resp.Errors[pom.topic], pom.partition) && resp.Errors[pom.topic][pom.partition] == ErrNoError
+//@   callsite updateCommitted: requires[sent_pair] req.blocks[pom.topic] != nil && req.blocks[pom.topic][pom.partition] != nil && $offset == req.blocks[pom.topic][pom.partition].offset && $metadata == req.blocks[pom.topic][pom.partition].metadata
+
+//@ func (om *offsetManager) releasePOMs(force) props C06
+//@   returns remaining
+//@   callsite release: requires[only_done] releaseDue
+
+// ---------------------------------------------------------------------------------------------
+// admin.go (C19): the retry wrapper. ghost ca.calls counts invocations of fn, ca.last is its last result.
+
+//@ ghost field clusterAdmin.calls int
+//@ ghost field clusterAdmin.last error
+//@ ghost func isRetryable(error) bool
+
+//@ func clusterAdmin.retryOnError.fn()
+//@   returns e
+//@   effect ca.calls == old(ca.calls) + 1 && ca.last == e
+//@   modifies ca.calls, ca.last
+
+//@ func clusterAdmin.retryOnError.retryable(x)
+//@   returns b
+//@   ensures b == isRetryable(x)
+//@   modifies nothing
+
+//@ func (ca *clusterAdmin) retryOnError(retryable, fn) props C19
+//@   returns r
+//@   requires ca.calls == 0 && ca.last == nil
+//@   ensures[called] ca.calls >= 1
+//@   ensures[last] r == ca.last
+//@   ensures[nil_only_if_last_nil] r == nil ==> ca.last == nil
+//@   ensures[no_retry_after_fatal] r != nil && !isRetryable(r) ==> ca.last == r
+//@   ensures[budget] r != nil && isRetryable(r) ==> ca.calls >= ca.conf.Admin.Retry.Max
+//@   loop 0: invariant ca.calls == attempt && attempt >= 0 && (attempt == 0 ==> err == nil && ca.last == nil) && (attempt > 0 ==> err == ca.last && err != nil && isRetryable(err))
